@@ -5,10 +5,12 @@ import (
 	"fmt"
 	"io/fs"
 	"os"
+	"runtime"
 	"strings"
 	"time"
 
 	"github.com/avfs/avfs"
+	"github.com/avfs/avfs/verifrt"
 
 	"verif/lib/fsx"
 )
@@ -69,6 +71,46 @@ func errPaths(err error) []string {
 	return out
 }
 
+// guard is fsx.Guard with a cheaper way to find the panicking avfs frame
+// (runtime.Callers instead of a formatted stack dump): panics are frequent here.
+// The message has the same shape: "<panic text> @ <function>(".
+func guard(f func()) (kind, msg string) {
+	defer func() {
+		if r := recover(); r != nil {
+			if d, ok := r.(verifrt.Deadlock); ok {
+				kind, msg = "DEADLOCK", d.Error()
+
+				return
+			}
+
+			kind = "PANIC"
+			msg = fmt.Sprint(r)
+
+			var pcs [48]uintptr
+
+			n := runtime.Callers(2, pcs[:])
+			frames := runtime.CallersFrames(pcs[:n])
+
+			for {
+				fr, more := frames.Next()
+				if strings.Contains(fr.Function, "github.com/avfs/avfs") && !strings.Contains(fr.Function, "verifrt") {
+					msg += " @ " + fr.Function + "("
+
+					break
+				}
+
+				if !more {
+					break
+				}
+			}
+		}
+	}()
+
+	f()
+
+	return "", ""
+}
+
 type runner struct {
 	res result
 }
@@ -79,7 +121,7 @@ func (r *runner) do(label string, f func(s *sub) error) bool {
 
 	var err error
 
-	k, msg := fsx.Guard(func() { err = f(&s) })
+	k, msg := guard(func() { err = f(&s) })
 
 	switch {
 	case k != "":
@@ -338,7 +380,7 @@ func run(v avfs.VFS, o opT) result {
 // FeatSymlink (what OrefaFS answers, what avfs documents for the feature being
 // absent): a permission error carrying the arguments as given, no effect.
 func noSymlinkResult(o opT) result {
-	s := sub{Kind: "EPERM"}
+	s := sub{Kind: fsx.ErrKind(avfs.ErrPermDenied)}
 
 	switch o.Call {
 	case "Symlink":
